@@ -17,6 +17,10 @@ structure Obs where
   err : Option String
   notifs : List (Payload × Payload)
   accepts : List Bool          -- per element of the probe univ; [] when not probed
+  /-- a second, changes-only (`onlychanged=True`, the default of `watch`) watcher of `objects` was called once
+  for every notification whose old and new payload differ (same type and `==` in Python), and for no other;
+  judged by the harness, `true` in the model -/
+  chg : Bool := true
   deriving Repr, DecidableEq
 
 def Obs.st (o : Obs) (c : Bool) : St := { objs := o.list, names := o.names, checkOnSet := c }
@@ -59,7 +63,9 @@ def callOk (prev cur : Obs) (c : Bool) (op : Op) : Option String :=
     | .assign _ => false
     | .popKeyD k _ => (Dict.get? prev.names k).isSome     -- a missing key: the default is returned, nothing changes
     | _ => true
-  if cur.err.isNone && mutator && cur.notifs.length != 1 then
+  if !cur.chg then
+    some "a changes-only watcher of `objects` was not notified exactly when the objects changed"
+  else if cur.err.isNone && mutator && cur.notifs.length != 1 then
     some s!"{cur.notifs.length} notifications for one successful mutation"
   else if (cur.err.isSome || !mutator) && !cur.notifs.isEmpty then
     some "notification without a successful mutation"
